@@ -1,5 +1,6 @@
 import SecsModel.Props.C20
 import SecsModel.Props.C20b
+import SecsModel.Props.C20c
 #print axioms SecsModel.Props.C20.tables_match_source
 #print axioms SecsModel.Props.C20.safety_all_histories
 #print axioms SecsModel.Props.C20.established_only_by_exchange
@@ -24,3 +25,10 @@ import SecsModel.Props.C20b
 #print axioms SecsModel.Proofs.PairBridge.never_entered
 #print axioms SecsModel.Props.C20b.delay_not_selected_agrees
 #print axioms SecsModel.Props.C20b.delay_not_connected_flushed_at_linkUp
+#print axioms SecsModel.Props.C20c.s2f41_behaviour
+#print axioms SecsModel.Props.C20c.callback_once
+#print axioms SecsModel.Props.C20c.s2f41_not_text
+#print axioms SecsModel.Props.C20c.send_remote_command_result
+#print axioms SecsModel.Props.C20c.host_events
+#print axioms SecsModel.Props.C20c.witness_explicit_report_id
+#print axioms SecsModel.Props.C20c.alarms_reach_host
